@@ -173,9 +173,23 @@ def tainted_sinks(fn, F, sources):
             out.append(('allocation', n, ir.fmt_stmt(n.stmt)))
         if n.kind == 'branch' and any(_mentions_text(n.stmt[1], s) for s in names):
             # loop bound?
-            if n.id in F.reach(n.succ[0]) if n.succ else False:
-                out.append(('loop-bound', n, ir.fmt(n.stmt[1])))
+            if len(n.succ) == 2 and _stays_in_loop(F, n, n.succ[0]) != _stays_in_loop(F, n, n.succ[1]):
+                out.append(('loop-bound', n, ir.fmt(n.stmt[1])))      # one arm stays in the loop headed here, the other leaves it
     return out, names
+
+
+def _stays_in_loop(F, head, start):
+    """from `start`, `head` is reached again through nodes it dominates (the natural loop of `head`)"""
+    seen, st = set(), [start]
+    while st:
+        i = st.pop()
+        if i == head.id:
+            return True
+        if i in seen or head.id not in F.dom.get(i, ()):
+            continue
+        seen.add(i)
+        st.extend(F.g.nodes[i].succ)
+    return False
 
 
 def _mentions_text(e, s):
